@@ -257,6 +257,11 @@ func (s *Session) Reset() error {
 	// Generate a new session, and set session.fresh to true
 	s.refresh()
 
+	// the absolute deadline lived in the data that was just wiped: the new session gets its own
+	if s.config.AbsoluteTimeout > 0 {
+		s.setAbsExpiration(time.Now().Add(s.config.AbsoluteTimeout))
+	}
+
 	return nil
 }
 
